@@ -1,6 +1,7 @@
 """Tables of translator phase 4h (app mode, tools/rs2lean_app.py): which functions of the application layer are regenerated into
 Gen/AppFns.lean, the enum / struct registrations, and the abstracted float expressions (inputs of the generated function)."""
 CH = "src/app/matmul/cheetah.rs"; CV = "src/app/conv2d.rs"; BE = "src/batch_encoder.rs"; LW = "src/app/lwe.rs"
+UB = "src/util/basic.rs"; USZ = ("name", "usize")
 OBJ = {"CipherPlain": "cipherPlain", "PlainCipher": "plainCipher", "CpAddPc": "cpAddPc"}
 
 TABLE_APP = [
@@ -20,6 +21,28 @@ TABLE_APP = [
     {"file": CV, "fn": "ceil_div", "lean": "cv_ceil_div", "model": "MM.ceilDiv"},
     {"file": CV, "fn": "new", "impl": "Conv2dHelper", "lean": "cv_new", "model": "MM.CHelper.new"},
     {"file": CV, "fn": "output_terms", "impl": "Conv2dHelper", "lean": "cv_output_terms", "model": "MM.cvOutputTerms"},
+    # ---- src/util/basic.rs `reverse_bits_u64`, src/batch_encoder.rs `BatchEncoder::new`: the `matrix_reps_index_map` loop (fragment: the function
+    # as a whole works on a context; free variables of the run: `slots` = poly_modulus_degree, `logn` = get_power_of_two(slots))
+    {"file": UB, "fn": "reverse_bits_u64", "lean": "reverse_bits_u64", "model": "brev"},
+    {"file": BE, "fn": "new", "impl": "BatchEncoder", "lean": "be_index_map", "model": "batchIndexMap",
+     "consts": {"GALOIS_GENERATOR": "src/util/galois.rs"}, "fncalls": {"util::reverse_bits_u64": (UB, "reverse_bits_u64")},
+     "fragment": {"start": "matrix_reps_index_map = vec![0; slots];", "count": 6, "params": [("slots", USZ), ("logn", USZ)],
+                  "prologue": "let mut matrix_reps_index_map = vec![];", "result": "matrix_reps_index_map", "ret": ("vec", USZ)}},
+    # ---- src/app/lwe.rs: index / loop arithmetic of the LWE tools (fragments; evaluator calls are opaque steps recorded in a plan)
+    {"file": LW, "fn": "extract_lwe", "impl": "Evaluator", "lean": "lwe_extract_shift", "model": "shift of extractLwe",
+     "fragment": {"start": "let shift = if term == 0", "count": 1, "params": [("term", USZ), ("poly_modulus_degree", USZ)],
+                  "result": "shift", "ret": USZ}},
+    {"file": LW, "fn": "pack_lwe_ciphertexts", "impl": "Evaluator", "lean": "lwe_pack_log", "model": "packLog", "fuels": [65],
+     "fragment": {"start": "let mut l = 0;", "count": 2, "params": [("lwes_count", USZ)], "result": "l", "ret": USZ}},
+    # `field_trace_inplace`: the whole loop; `apply_galois` + `add_inplace` = one step with the Galois element recorded
+    {"file": LW, "fn": "field_trace_inplace", "impl": "Evaluator", "lean": "lwe_field_trace_plan", "model": "fieldTracePoly (loop structure)", "fuels": [65],
+     "opaque": ["self"],
+     "abstract": [("self.context().key_context_data().unwrap().parms().poly_modulus_degree()", "keyDegree", "Nat")],
+     "effects": {"let mut temp = Ciphertext::new()": "",
+                 "self.apply_galois(encrypted, galois_element, automorphism_keys, &mut temp)": "plan.push(galois_element);",
+                 "self.add_inplace(encrypted, &temp)": ""},
+     "fragment": {"start": "let mut poly_degree =", "count": 3, "params": [("logn", USZ)], "prologue": "let mut plan = vec![];",
+                  "result": "plan", "ret": ("vec", USZ)}},
 ]
 
 FILES = [
